@@ -18,3 +18,29 @@ def translate(run):
 
 REAL_AXIOMS = ["ClassicalDedekindReals.sig_forall_dec", "ClassicalDedekindReals.sig_not_dec",
                "FunctionalExtensionality.functional_extensionality_dep", "Classical_Prop.classic"]
+
+
+def translate_setlaw(run):
+    import os
+    import tr_setlaw
+    from rustexpr import Untranslatable
+    try:
+        txt = tr_setlaw.generate(vlib.REPO)
+    except Untranslatable as e:
+        return False, "SetSketcher::sketch outside the expected form: %s" % e
+    path = os.path.join(vlib.COQ, "Gen", "SetSketchLaw.v")
+    old = open(path).read() if os.path.exists(path) else None
+    if old != txt:
+        open(path, "w").write(txt)
+    return True, ""
+
+
+def correspond_registers(run, n):
+    """the registers the estimators read are those of the model of SetSketcher (sketch / merge / reinit histories)"""
+    from props import sklib
+    cases, codes = sklib.correspond_sk(run, n, "setsketch")
+    if cases is None:
+        return
+    sklib.report_cases(run, cases, codes, "setsketch-registers",
+                       "operation histories (sketch, sketch_slice, merge incl. accumulators, reinit) on SetSketcher<u16/u32>, m in "
+                       "{1,2,3,4,8,16,33}, five parameter tuples incl. clipping: registers, lower bound and counters against the model")
